@@ -59,6 +59,7 @@ type Features struct {
 	DefaultNS   bool // one namespace is `default`, and resources in it may leave the namespace field out
 	OnlyIP      bool // every rule peer is an ipBlock (workloads talk to addresses only)
 	Iso         bool // an extra namespace "iso" whose only workload is cut off from every real peer but not from hypothetical ones
+	HostAddrs   bool // ipBlocks may be single addresses: the nodes' (the classic "let the kubelet probe"), a pod's, a stranger's
 }
 
 var allKinds = []string{"Deployment", "ReplicaSet", "StatefulSet", "DaemonSet", "Job", "CronJob", "ReplicationController", "Pod"}
@@ -78,6 +79,7 @@ func drawFeatures(r *rng) Features {
 	f.PortDrift = f.SharedOwner && r.chance(1, 3)
 	f.DefaultNS = r.chance(1, 4)
 	f.Iso = r.chance(1, 5)
+	f.HostAddrs = r.chance(1, 4)
 	if r.chance(1, 10) {
 		f.Large = true
 		f.NNamespaces = 3
@@ -124,8 +126,11 @@ var (
 		{"0.0.0.0/0", []string{"10.0.0.0/8", "128.0.0.0/1"}},
 		{"10.1.2.0/24", nil},
 	}
-	portNums = []int32{53, 80, 443, 8080, 9090}
-	protos   = []corev1.Protocol{corev1.ProtocolTCP, corev1.ProtocolUDP, corev1.ProtocolSCTP}
+	// single addresses: the host IP of pods from Pod manifests, the one the analyzer gives to pods it derives from
+	// workload resources, the pod IP of Pod manifests, and two strangers
+	hostCidrs = []string{"192.168.49.2/32", "127.0.0.1/32", "10.244.0.7/32", "192.168.49.3/32", "8.8.8.8/32"}
+	portNums  = []int32{53, 80, 443, 8080, 9090}
+	protos    = []corev1.Protocol{corev1.ProtocolTCP, corev1.ProtocolUDP, corev1.ProtocolSCTP}
 )
 
 type portDecl struct {
@@ -392,9 +397,22 @@ func randNPPorts(r *rng, f *Features, toIP bool) []netv1.NetworkPolicyPort {
 	return res
 }
 
+func pickCIDR(r *rng, f *Features) struct {
+	c  string
+	ex []string
+} {
+	if f.HostAddrs && r.chance(1, 2) {
+		return struct {
+			c  string
+			ex []string
+		}{pick(r, hostCidrs), nil}
+	}
+	return pick(r, cidrs)
+}
+
 func randNPPeers(r *rng, f *Features) (peers []netv1.NetworkPolicyPeer, hasIP bool) {
 	if f.OnlyIP {
-		c := pick(r, cidrs)
+		c := pickCIDR(r, f)
 		return []netv1.NetworkPolicyPeer{{IPBlock: &netv1.IPBlock{CIDR: c.c}}}, true
 	}
 	if r.chance(1, 5) {
@@ -412,7 +430,7 @@ func randNPPeers(r *rng, f *Features) (peers []netv1.NetworkPolicyPeer, hasIP bo
 		p := netv1.NetworkPolicyPeer{}
 		switch k := r.intn(4); {
 		case k == 0 && f.IPBlocks:
-			c := pick(r, cidrs)
+			c := pickCIDR(r, f)
 			p.IPBlock = &netv1.IPBlock{CIDR: c.c}
 			for _, e := range c.ex {
 				if r.chance(1, 2) {
